@@ -161,7 +161,13 @@ RULE = ('histories of 4-30 operations over up to 7 live Atoms and their Systems,
         'zero-row assignment, extension by them); caller-owned arrays handed to copying accessors (prop(key, value=), '
         'Atoms(safecopy=True)) are overwritten afterwards; keyed reads are checked for shape (int index: trailing shape); '
         'the stored pbc must be a numpy bool array of 3 entries equal to the recorded one; len / natoms / atypes / str are '
-        'observers.')
+        'observers. (f) a second deterministic block (matrix_extra, ~350 histories): every way the number of atom types grows '
+        'through the atoms x every observer read first (symbols, masses, natypes, atypes, composition, str, masses=, '
+        'deepcopy(system), atoms_ix[:]) followed by all the others; symbols lengthened beyond the types in use, then masses; '
+        'per-type assignment over new / existing key x dtype x trailing shape x one type / table; read -> write -> the same '
+        'read for every read kind x write kind; atom types 0 / -1 / 0.5 through every write path; extension by nothing; the '
+        'spellings of symbols / masses / pbc; ~200 refusals (every reason through several accessors). Entries using df, '
+        'len/str or index+a_id are run by the search only.')
 ASSUMPTIONS = [
     'numpy semantics used by Atoms/System are as transcribed in lean/Atomman/C06.lean (mini-numpy: basic slices are '
     'views, integer-list / boolean indexing, deepcopy, np.array(np.broadcast_to()), np.zeros copy; assignment '
@@ -2765,6 +2771,21 @@ def matrix_extra(rng, base, mksys, box, donor):
                                        {'op': 'massget', 's': 's1'}, {'op': 'snatypes', 's': 's1'}, {'op': 'satypes', 's': 's1'}]))
     out.append(('massset:fewer', [base, msys, {'op': 'massset', 's': 's1', 'masses': [9.25]}, {'op': 'massget', 's': 's1'},
                                   {'op': 'massset', 's': 's1', 'masses': []}, {'op': 'massget', 's': 's1'}]))
+    # symbols lengthened beyond the atom types the atoms use, then masses (never shorter than System.natypes)
+    out.append(('symset:longer-then-masses', [base, msys, {'op': 'symset', 's': 's1', 'symbols': ['Al', 'Cu', 'Ni', 'Fe', 'X']},
+                                              {'op': 'massget', 's': 's1'}, {'op': 'snatypes', 's': 's1'},
+                                              {'op': 'massset', 's': 's1', 'masses': [1.5, 2.5, 3.5, 4.5, 5.5]}, {'op': 'massget', 's': 's1'},
+                                              {'op': 'symset', 's': 's1', 'symbols': ['Al']}, {'op': 'massget', 's': 's1'},
+                                              {'op': 'symget', 's': 's1'}]))
+    # ---- per-type assignment: new / existing key x dtype x trailing shape x one type / table of all types
+    for key, cls, trail in (('p4', 'i', []), ('p4', 'f', []), ('p4', 's', []), ('p4', 'b', []), ('p4', 'f', [3]), ('p4', 'i', [3]),
+                            ('p4', 'f', [3, 3]), ('p0', 'i', []), ('p0', 'f', []), ('p1', 'f', [3]), ('p1', 'i', [3]), ('p2', 's', []),
+                            ('p3', 'b', []), ('atype', 'i', [])):
+        for t in (1, 2, 3, None):
+            v = gen_lit(rng, cls, trail if t is not None else [3] + trail, key)
+            out.append((f'patype:{key}:{cls}{trail}:t={t}', [base, {'op': 'patype', 'o': 'a0', 'key': key, 'val': v, 't': t},
+                                                            {'op': 'pget', 'o': 'a0', 'key': key, 'ix': None},
+                                                            {'op': 'natypes', 'o': 'a0'}]))
     # ---- read -> write -> the same read again (memoised / cached reads)
     reads = [('pget', {'op': 'pget', 'o': 'a0', 'key': 'p0', 'ix': None}), ('pget-ix', {'op': 'pget', 'o': 'a0', 'key': 'p1', 'ix': ['S', 1, 4, None]}),
              ('spget-scaled', {'op': 'spget', 's': 's1', 'key': 'p1', 'ix': None, 'scale': True}),
